@@ -151,7 +151,8 @@ func (w *world) Ops() []seqx.Op {
 		ops = append(ops, op{Kind: "pkt", Late: true, Start: true, K: true})
 		ops = append(ops, op{Kind: "pkt", Late: true, Tid: 1, Start: true})
 	}
-	for _, r := range []int{50_000, 10_000_000} {
+	// (5000 is below the floor of the loss-based ceiling: the two ceilings are separate)
+	for _, r := range []int{5_000, 50_000, 10_000_000} {
 		ops = append(ops, op{Kind: "remb", N: r})
 	}
 	for _, l := range []int{0, 4, 5, 25, 26, 255} {
